@@ -597,6 +597,7 @@ type vc17SockNode struct {
 	main bool
 	idx  int
 	mode vc17SockMode
+	nw   Network
 }
 
 func (n *vc17SockNode) vc17Name() string { return n.name }
@@ -630,9 +631,10 @@ func (n *vc17SockNode) setMode(m vc17SockMode) (err error) {
 
 func TestVerifC17Sockets(t *testing.T) {
 	st := vstat.New("C17", "forward.sockets",
-		"rapid histories (1-2 mains, 0-2 fallbacks, each a real UpstreamPlain (any/udp/tcp) to its own loopback UDP+TCP server; ops: query, health-check round, server switch among up / SERVFAIL / sockets closed / wrong-ID / other-name / other-type replies, clock step around the backoff) against the same reference state machine; non-trivial = a health-check round finds a previously failed main up again, distinct by the whole history",
+		"rapid histories (1-2 mains, 0-2 fallbacks, each a real UpstreamPlain (any/udp/tcp) built by NewHandler to its own loopback UDP+TCP server; construction with HealthcheckInitDuration 0 or >0 against servers that are already up/down/answering wrongly; ops: query, health-check round, server switch among up / SERVFAIL / sockets closed / wrong-ID / other-name / other-type replies, clock step around the backoff) against the same reference state machine; non-trivial = a health-check round finds a previously failed main up again, distinct by the whole history",
 		"recovered-after-backoff", "blocked-in-backoff-while-up", "neterr-fallback-ok", "neterr-fallback-fails",
-		"all-down-query-to-fallback", "plainerr-no-fallback", "no-fallbacks-refresh-with-down-main")
+		"all-down-query-to-fallback", "plainerr-no-fallback", "no-fallbacks-refresh-with-down-main",
+		"init-probe-failed-no-fallbacks", "init-probe-failed-with-fallbacks")
 	st.Finish(t)
 
 	ctx := context.Background()
@@ -674,6 +676,7 @@ func TestVerifC17Sockets(t *testing.T) {
 			}
 
 			nw := rapid.SampledFrom([]Network{NetworkAny, NetworkAny, NetworkUDP, NetworkTCP}).Draw(t, "network")
+			n.nw = nw
 			conf := &UpstreamPlainConfig{Network: nw, Address: n.srv.addr(), Timeout: vc17Timeout}
 			if n.main {
 				mains, mainConfs = append(mains, n), append(mainConfs, conf)
@@ -682,36 +685,26 @@ func TestVerifC17Sockets(t *testing.T) {
 			}
 		}
 
-		h = vc17NewHandler(mainConfs, fbConfs, backoff, "${RANDOM}.hc.verif.test", seed)
-		if len(h.upstreams) != nMain || len(h.activeUpstreams) != nMain || len(h.fallbacks) != nFb {
-			t.Fatalf("NewHandler with %d mains and %d fallbacks built %d mains (%d eligible) and %d fallbacks",
-				nMain, nFb, len(h.upstreams), len(h.activeUpstreams), len(h.fallbacks))
-		}
-
-		for _, n := range nodes {
-			var ok bool
-			if n.main {
-				n.UpstreamPlain, ok = h.upstreams[n.idx].upstream.(*UpstreamPlain)
-				ok = ok && h.activeUpstreams[n.idx] == h.upstreams[n.idx].upstream
-			} else {
-				n.UpstreamPlain, ok = h.fallbacks[n.idx].(*UpstreamPlain)
-			}
-
-			if !ok {
-				fmt.Println("VERIF-INCONCLUSIVE: NewHandler no longer builds *UpstreamPlain clients in configuration order")
-				t.Fatalf("harness binding broken")
-			}
-		}
-
-		vc17Install(h, mains, fbs, false)
-		e := vc17NewEnv(h, mains, fbs, backoff)
-		fmt.Fprintf(&e.hist, "m%d f%d b%s |", nMain, nFb, backoff)
+		// The construction is part of the history: the servers are put into
+		// their initial states first, and NewHandler may run its initial
+		// health check against them.
+		initDur := rapid.SampledFrom([]time.Duration{0, vc17Timeout}).Draw(t, "initDuration")
+		e := vc17NewEnv(nil, mains, fbs, backoff)
+		fmt.Fprintf(&e.hist, "m%d f%d b%s init=%s |", nMain, nFb, backoff, initDur)
+		initDown := false
 		for _, n := range nodes {
 			n.env = e
-			fmt.Fprintf(&e.hist, " %s:%s", n.name, n.UpstreamPlain)
-			if err := n.setMode(vc17SockUp); err != nil {
+			m := vc17SockUp
+			if rapid.Bool().Draw(t, "initiallyDown") {
+				m = vc17SockMode(rapid.IntRange(1, int(vc17SockModeCount)-1).Draw(t, "initMode"))
+				initDown = initDown || n.main
+			}
+
+			if err := n.setMode(m); err != nil {
 				t.Fatalf("harness: %v", err)
 			}
+
+			fmt.Fprintf(&e.hist, " %s:%s/%s=%s", n.name, n.nw, n.srv.addr(), vc17SockModeNames[m])
 		}
 
 		e.hist.WriteString(" | ")
@@ -724,6 +717,48 @@ func TestVerifC17Sockets(t *testing.T) {
 			}
 
 			t.Fatalf("%s", msg)
+		}
+
+		construct := func() {
+			h = vc17NewHandler(mainConfs, fbConfs, backoff, initDur, "${RANDOM}.hc.verif.test", seed)
+			if len(h.upstreams) != nMain || len(h.fallbacks) != nFb {
+				t.Fatalf("NewHandler with %d mains and %d fallbacks built %d mains and %d fallbacks", nMain, nFb, len(h.upstreams), len(h.fallbacks))
+			}
+
+			for _, n := range nodes {
+				var ok bool
+				if n.main {
+					n.UpstreamPlain, ok = h.upstreams[n.idx].upstream.(*UpstreamPlain)
+				} else {
+					n.UpstreamPlain, ok = h.fallbacks[n.idx].(*UpstreamPlain)
+				}
+
+				if !ok || n.UpstreamPlain.addr != n.srv.addr() {
+					fmt.Println("VERIF-INCONCLUSIVE: NewHandler no longer builds *UpstreamPlain clients in configuration order")
+					t.Fatalf("harness binding broken")
+				}
+			}
+
+			vc17Install(h, mains, fbs, false)
+			e.h = h
+		}
+
+		if initDur > 0 {
+			// The initial health check is an ordinary round for the reference;
+			// its probes go through the unwrapped clients and are not seen.
+			if err := e.refreshRun(fail, construct, false); err != nil {
+				t.Fatalf("harness: %v", err)
+			}
+
+			switch {
+			case initDown && nFb == 0:
+				e.class("init-probe-failed-no-fallbacks")
+			case initDown:
+				e.class("init-probe-failed-with-fallbacks")
+			}
+		} else {
+			construct()
+			e.checkActiveState(fail, "after construction without an initial health check")
 		}
 
 		discarded := ""
